@@ -34,6 +34,8 @@ class SBytes:
         s.arr = arr; s.n = n if isinstance(n, z3.ExprRef) else z3.IntVal(n); s.off = off if isinstance(off, z3.ExprRef) else z3.IntVal(off)
     def at(s, k): return z3.Select(s.arr, z3.simplify(s.off + k))
     def __repr__(s): return f"SBytes(len={s.n},off={s.off})"
+class STxt(SBytes):
+    """str obtained by decoding ASCII bytes: the same offset view, character k is the octet arr[off+k] (< 0x80)"""
 class SOpt:
     """Optional[int]: isnone (z3 Bool) + val (z3 Int), split lazily at `is None` tests"""
     def __init__(s, isnone, val): s.isnone = isnone; s.val = val
@@ -201,7 +203,8 @@ class Engine:
         s.reveal_defs = []      # [(opaque FuncDecl, transparent body over z3.Var)] -- "reveal" by substitution
         s.refute_defs = []      # additional substitutions for the bounded refutation pass (fully transparent faces)
         s.prelude_methods = {}  # method name -> fn(eng, st, base, args, ctx, node) for SBytes/SStr receivers
-        s.py_calls = {"typing.cast": lambda e, st, args, kw, ctx, node: [(st, args[1])]}         # dotted name of an external callable -> fn(eng, st, args, kw, ctx, node)
+        s.py_calls = {"typing.cast": lambda e, st, args, kw, ctx, node: [(st, args[1])],
+                      "enum.auto": lambda e, st, args, kw, ctx, node: [(st, ("enumval", next(_fresh)))]}         # dotted name of an external callable -> fn(eng, st, args, kw, ctx, node)
         s.cuts = {}             # (qualname, selector) -> fn(st, eng) -> z3 Bool, asserted+assumed after the statement
         s.exc_parents = dict(DEFAULT_EXC_PARENTS)
         s.len_vars = []         # z3 Int constants that are lengths of symbolic sequences (bounded in the refutation pass)
@@ -627,7 +630,7 @@ class Engine:
                 return z3.If(x < 0, z3.If(x + n < 0, 0, x + n), z3.If(x > n, n, x))
             l, h = norm(lo, z3.IntVal(0)), norm(hi, n)
             ln = h - l if not can(h < l) else z3.If(h > l, h - l, 0)
-            return SBytes(base.arr, z3.simplify(ln), z3.simplify(base.off + l))
+            return base.__class__(base.arr, z3.simplify(ln), z3.simplify(base.off + l))
         if isinstance(base, (SStr, str)):
             e = to_str(base); n = z3.Length(e)
             def norm(v, default):
